@@ -152,6 +152,10 @@ none is listed as a finding and no check was loosened below what its statement s
   `gettimeofday`, which also work inside a synctest bubble) for 400 ms (60 ms after ten confirmed deadlocks in one process, so that a code
   change that deadlocks most schedules does not make the exploration crawl); the number of rescues is in the evidence
   (`transient_blocks_resolved_by_patience`).
+* **C05 (thorough tier only, once).** With a fresh application for *every* one of 3.5 M histories, each `SendFile` call created a
+  fasthttp file handler that keeps its file open for 10 s and owns a goroutine; run beside another job, the process ran out of file
+  descriptors and `SendFile` answered 984 probes with a nil-pointer panic. The driver's fault: fresh applications are now reserved for
+  histories that touch that store, and capped.
 * **C14 (thorough tier only).** The trace specification prescribed *which* free tracking index a new heap entry gets (the smallest);
   the code re-uses indices of removed entries in its own order, and after two evictions in one request the two differ. The index is an
   internal name: traces now accept any unused index (`AnyIdx = TRUE`), the design check keeps the canonical choice as a symmetry reduction.
